@@ -662,18 +662,23 @@ def static_objects(outdir):
         o = os.path.join(od, f[:-4] + '.o')
         if not os.path.exists(o):
             raise SystemExit('cannot compile ' + f)
-        r = subprocess.run(['nm', '-C', '--defined-only', o], stdout=subprocess.PIPE, text=True).stdout
+        # sysv format carries the section: an object is immutable iff it lives in a read-only section, whatever its binding
+        # (local, global, weak, unique: inline variables and statics of inline functions are 'u' / 'V')
+        r = subprocess.run(['nm', '-C', '--defined-only', '-f', 'sysv', o], stdout=subprocess.PIPE, text=True).stdout
         for ln in r.split('\n'):
-            t = ln.split(None, 2)
-            if len(t) == 3 and t[1] in 'bBdDrRuvVgGsS':
-                name = t[2]
-                if name.startswith(('.L', '__gnu', 'std::__', 'typeinfo', 'vtable', 'guard variable', 'DW.ref', '.rodata', 'construction vtable', 'VTT')) or name.startswith('std::piecewise') or 'std::ignore' in name:
-                    if name.startswith('guard variable'):
-                        out.append((f, name, 'mutable'))
-                    continue
-                if name.startswith('std::') or name.startswith('__') :
-                    continue
-                out.append((f, name, 'mutable' if t[1] in 'bBdDsSgG' else 'const'))
+            t = [x.strip() for x in ln.split('|')]
+            if len(t) < 7 or t[3] not in ('OBJECT', 'TLS'):
+                continue
+            name, sect = t[0], t[6]
+            if name.startswith('guard variable'):
+                out.append((f, name, 'mutable'))
+                continue
+            if name.startswith(('.L', '__gnu', 'std::__', 'typeinfo', 'vtable', 'DW.ref', '.rodata', 'construction vtable', 'VTT')) or name.startswith('std::piecewise') or 'std::ignore' in name:
+                continue
+            if name.startswith('std::') or name.startswith('__'):
+                continue
+            const = sect.startswith(('.rodata', '.data.rel.ro')) and t[3] != 'TLS'
+            out.append((f, name, 'const' if const else 'mutable'))
     return sorted(set(out))
 
 # ------------------------------------------------------------------ main
